@@ -318,6 +318,16 @@ def L2_fd_socket(o0, o1, o2, o3, sock):
     return 2 if closed else 3
 
 
+def dry_runs():
+    for o0 in range(14):
+        for st in (False, True):
+            yield 'L1_pty_sequences', dict(o0=o0, o1=8, o2=2, code=1, exit_at=None, ign_hup=True, ign_int=True, stopped=st)
+            yield 'L1_pty_sequences', dict(o0=7, o1=o0, o2=0, code=1, exit_at=3, ign_hup=False, ign_int=False, stopped=st)
+    for sock in (False, True):
+        yield 'L2_fd_socket', dict(o0=1, o1=2, o2=0, o3=3, sock=sock)
+        yield 'L2_fd_socket', dict(o0=4, o1=0, o2=1, o3=2, sock=sock)
+
+
 MANIFEST_ENTRY = {
     'level_text': 'Bounded symbolic verification of the real spawn lifecycle code (close, terminate, kill, isalive, '
                   'wait, send, read_nonblocking, __exit__) composed with the real ptyprocess close/terminate/isalive/'
